@@ -333,14 +333,146 @@ def _knorm(t, k):
     return SymReal(simp(t), k)
 
 
+def _forkmode(a, b=None):
+    """Special values handled by forking on the kind (no if-then-else terms), see Context.kind_mode."""
+    if not has_ctx() or ctx().kind_mode != 'fork':
+        return False
+    return a.k is not None or (b is not None and b.k is not None)
+
+
+_INF, _NAN = float('inf'), float('nan')
+
+
+def _norm(x):
+    """Kinded SymReal -> finite SymReal (k None) | python float inf/-inf/nan, forking on the kind."""
+    if not isinstance(x, SymReal):
+        return x
+    if x.k is None:
+        return x
+    c = ctx()
+    k = simp(x.k)
+    if c.decide(k == FIN):
+        return SymReal(x.t, None, True)
+    if c.decide(k == NAN):
+        return _NAN
+    if c.decide(k == PINF):
+        return _INF
+    return -_INF
+
+
+def _sign_fork(f):
+    """+1 / -1 / 0 of a finite symbolic real, forking."""
+    c = ctx()
+    if c.decide(simp(f.t > 0)):
+        return 1
+    if c.decide(simp(f.t < 0)):
+        return -1
+    return 0
+
+
+def _fork_bin(op, a, b):
+    a, b = _norm(a), _norm(b)
+    sa, sb = isinstance(a, SymReal), isinstance(b, SymReal)
+    if not sa and not sb:
+        with np.errstate(all='ignore'):
+            fa, fb = np.float64(a), np.float64(b)
+            r = {'add': lambda: fa + fb, 'mul': lambda: fa * fb, 'div': lambda: fa / fb,
+                 'lt': lambda: fa < fb, 'eq': lambda: fa == fb}[op]()
+        return bool(r) if op in ('lt', 'eq') else float(r)
+    if sa and sb:
+        if op == 'add':
+            return SymReal(simp(a.t + b.t))
+        if op == 'mul':
+            return SymReal(simp(a.t * b.t))
+        if op == 'lt':
+            return mk_bool(a.t < b.t)
+        if op == 'eq':
+            return mk_bool(a.t == b.t)
+        if op == 'div':
+            if b.z or ctx().div_mode == 'ieee':
+                if ctx().decide(simp(b.t == 0)):
+                    sg = _sign_fork(a)
+                    return _NAN if sg == 0 else sg * _INF
+                return SymReal(simp(a.t / b.t))
+            ctx().assume_defined(b.t != 0, "division")
+            return SymReal(simp(a.t / b.t))
+    # exactly one special / concrete float
+    f, s_ = (a, b) if sa else (b, a)      # f finite symbolic, s_ python float
+    s_ = float(s_)
+    import math as _m
+    if not (_m.isinf(s_) or _m.isnan(s_)):
+        # plain finite float with a symbolic: ordinary arithmetic
+        fr = SymReal(rv(s_))
+        x, y = (f, fr) if sa else (fr, f)
+        return _plain_bin(op, x, y)
+    if op == 'add':
+        return s_
+    if op == 'mul':
+        if _m.isnan(s_):
+            return _NAN
+        sg = _sign_fork(f)
+        return _NAN if sg == 0 else sg * s_
+    if op == 'div':
+        if _m.isnan(s_):
+            return _NAN
+        if sa:                      # finite / inf
+            return 0.0
+        # inf / finite  (+0 assumed for a zero denominator)
+        return s_ if ctx().decide(simp(f.t >= 0)) else -s_
+    if op == 'lt':
+        if _m.isnan(s_):
+            return False
+        return (s_ > 0) if sa else (s_ < 0)
+    if op == 'eq':
+        return False
+    raise Inconclusive("special-value op %s" % op)
+
+
+def _plain_bin(op, x, y):
+    if op == 'add':
+        return SymReal(simp(x.t + y.t))
+    if op == 'mul':
+        return SymReal(simp(x.t * y.t))
+    if op == 'lt':
+        return mk_bool(x.t < y.t)
+    if op == 'eq':
+        return mk_bool(x.t == y.t)
+    if op == 'div':
+        if y.z:
+            if ctx().decide(simp(y.t == 0)):
+                sg = _sign_fork(x)
+                return _NAN if sg == 0 else sg * _INF
+            return SymReal(simp(x.t / y.t))
+        if has_ctx():
+            ctx().assume_defined(y.t != 0, "division")
+        return SymReal(simp(x.t / y.t))
+
+
+def _fork_le(a, b):
+    a, b = _norm(a), _norm(b)
+    lt = _fork_bin('lt', a, b)
+    if lt is True:
+        return True
+    eq = _fork_bin('eq', a, b)
+    if isinstance(lt, bool) and isinstance(eq, bool):
+        return lt or eq
+    return mk_bool(z3.Or(bterm(lt), bterm(eq)))
+
+
+def _fork_ne(a, b):
+    r = _fork_bin('eq', a, b)
+    return (not r) if isinstance(r, bool) else ~r
+
+
 class SymReal:
     """A real-valued term; k is None (finite) or a z3 Int term in {FIN,PINF,NINF,NAN}."""
-    __slots__ = ('t', 'k')
+    __slots__ = ('t', 'k', 'z')
     __array_priority__ = 1000
 
-    def __init__(self, t, k=None):
+    def __init__(self, t, k=None, z=False):
         self.t = t
         self.k = k
+        self.z = z      # may be zero / of either sign although finite (came from an extended-real input)
 
     def __hash__(self):
         return self.t.hash()
@@ -376,6 +508,8 @@ class SymReal:
         a = self
         if a.k is None and b.k is None:
             return SymReal(simp(a.t + b.t))
+        if _forkmode(a, b):
+            return _fork_bin('add', a, b)
         ka, kb = _kt(a), _kt(b)
         k = z3.If(z3.Or(ka == NAN, kb == NAN), _K[NAN],
                   z3.If(ka == FIN, kb, z3.If(kb == FIN, ka, z3.If(ka == kb, ka, _K[NAN]))))
@@ -385,7 +519,10 @@ class SymReal:
 
     def __neg__(self):
         if self.k is None:
-            return SymReal(simp(-self.t))
+            return SymReal(simp(-self.t), None, self.z)
+        if _forkmode(self):
+            v = _norm(self)
+            return -v
         k = z3.If(self.k == PINF, _K[NINF], z3.If(self.k == NINF, _K[PINF], self.k))
         return _knorm(-self.t, k)
 
@@ -417,6 +554,8 @@ class SymReal:
         a = self
         if a.k is None and b.k is None:
             return SymReal(simp(a.t * b.t))
+        if _forkmode(a, b):
+            return _fork_bin('mul', a, b)
         ka, kb = _kt(a), _kt(b)
         # sign: +1 / -1 / 0 as Int terms
         sa = z3.If(ka == PINF, 1, z3.If(ka == NINF, -1, z3.If(a.t > 0, 1, z3.If(a.t < 0, -1, 0))))
@@ -431,6 +570,8 @@ class SymReal:
 
     def _div(a, b):
         c = ctx() if has_ctx() else None
+        if c is not None and c.kind_mode == 'fork' and (a.k is not None or b.k is not None or b.z):
+            return _fork_bin('div', a, b)
         ieee = (a.k is not None or b.k is not None or (c is not None and c.div_mode == 'ieee'))
         if not ieee:
             if z3.is_rational_value(b.t):
@@ -500,8 +641,12 @@ class SymReal:
         raise Inconclusive("unsupported power base %r" % (base,))
 
     def __abs__(self):
+        if self.k is None and self.z and has_ctx() and ctx().kind_mode == 'fork':
+            return self if ctx().decide(simp(self.t >= 0)) else SymReal(simp(-self.t), None, True)
         if self.k is None:
             return SymReal(simp(z3.If(self.t >= 0, self.t, -self.t)))
+        if _forkmode(self):
+            return abs(_norm(self))
         k = z3.If(self.k == NINF, _K[PINF], self.k)
         return _knorm(z3.If(self.t >= 0, self.t, -self.t), k)
 
@@ -527,6 +672,8 @@ class SymReal:
         b = self._co(o)
         if b is None:
             return NotImplemented
+        if _forkmode(self, b):
+            return _fork_bin('lt', self, b)
         return mk_bool(self._lt(b))
 
     def __gt__(self, o):
@@ -535,6 +682,8 @@ class SymReal:
         b = self._co(o)
         if b is None:
             return NotImplemented
+        if _forkmode(self, b):
+            return _fork_bin('lt', b, self)
         return mk_bool(b._lt(self))
 
     def __le__(self, o):
@@ -543,6 +692,8 @@ class SymReal:
         b = self._co(o)
         if b is None:
             return NotImplemented
+        if _forkmode(self, b):
+            return _fork_le(self, b)
         return mk_bool(z3.Or(self._lt(b), self._eq(b)))
 
     def __ge__(self, o):
@@ -551,6 +702,8 @@ class SymReal:
         b = self._co(o)
         if b is None:
             return NotImplemented
+        if _forkmode(self, b):
+            return _fork_le(b, self)
         return mk_bool(z3.Or(b._lt(self), self._eq(b)))
 
     def __eq__(self, o):
@@ -561,6 +714,8 @@ class SymReal:
         b = self._co(o)
         if b is None:
             return NotImplemented
+        if _forkmode(self, b):
+            return _fork_bin('eq', self, b)
         return mk_bool(self._eq(b))
 
     def __ne__(self, o):
@@ -571,6 +726,8 @@ class SymReal:
         b = self._co(o)
         if b is None:
             return NotImplemented
+        if _forkmode(self, b):
+            return _fork_ne(self, b)
         return mk_bool(z3.Not(self._eq(b)))
 
     # numpy object-dtype ufuncs call these methods
@@ -590,7 +747,8 @@ class SymReal:
         raise Inconclusive("float() of a symbolic real (the code needs a concrete number)")
 
     def __int__(self):
-        raise Inconclusive("int() of a symbolic real")
+        t = self.t
+        return ctx().concretize_int(z3.If(t >= 0, z3.ToInt(t), -z3.ToInt(-t)))
 
     def __bool__(self):
         return ctx().decide(z3.Not(self._eq(real(0.0))))
@@ -607,6 +765,15 @@ class SymReal:
         return "SymReal(%s%s)" % (self.t, '' if self.k is None else ', k=%s' % self.k)
 
     __repr__ = lambda self: "SymReal(%s%s)" % (self.t, '' if self.k is None else ', k=%s' % self.k)
+
+
+class SymRealPrintable(SymReal):
+    """A symbolic real that tolerates '%g' formatting inside (silenced) print statements: float() yields
+    NaN, so that any *computation* on the converted value poisons the result instead of going unnoticed."""
+    __slots__ = ()
+
+    def __float__(self):
+        return float('nan')
 
 
 def fresh_real(name, kinded=False):
@@ -672,6 +839,10 @@ def _log_atom(c, base, t):
         return hit[1]
     v = z3.FreshReal('log%s' % base)
     c.fn_cache[key] = (t, v)
+    if c.ex.opts.get('log_monotone', False):
+        for (b2, t2, v2) in c.log_atoms:
+            if b2 == base:
+                c.facts.append(z3.Implies(z3.And(t > 0, t2 > 0), z3.And((t < t2) == (v < v2), (t == t2) == (v == v2))))
     c.log_atoms.append((base, t, v))
     return v
 
@@ -702,6 +873,16 @@ def _s_logb(x, base):
             return float(np.log10(np.float64(x)) if base == 10 else np.log(np.float64(x)))
     x = real(x)
     c = ctx()
+    if c.kind_mode == 'fork' and (x.k is not None or c.log_mode == 'ieee'):
+        x = _norm(x)
+        if not isinstance(x, SymReal):
+            with np.errstate(all='ignore'):
+                return float(np.log10(np.float64(x)) if base == 10 else np.log(np.float64(x)))
+        if c.decide(simp(x.t > 0)):
+            return SymReal(simp(_log_struct(c, base, x.t)))
+        if c.decide(simp(x.t == 0)):
+            return -_INF
+        return _NAN
     # 10**t round trip
     inv = c.pow10_inverse.get(x.t.get_id()) if base == 10 else None
     if inv is not None and x.k is None:
@@ -745,6 +926,12 @@ def s_pow10(x):
         p = z3.FreshReal('pow10')
         c.add_def_rel(p, p > 0, 'pow10', [x.t])
         c.pow10_inverse[p.get_id()] = x.t
+        if c.ex.opts.get('pow10_monotone', False):
+            for (t2, p2) in c.pow10_atoms:
+                c.facts.append(z3.And((x.t < t2) == (p < p2), (x.t == t2) == (p == p2)))
+            for (b2, t2, v2) in c.log_atoms:
+                if b2 == 10:     # 10**t versus an argument of log10: p < t2  <=>  t < log10 t2
+                    c.facts.append(z3.Implies(t2 > 0, z3.And((p < t2) == (x.t < v2), (p == t2) == (x.t == v2))))
         c.pow10_atoms.append((x.t, p))
         if x.k is None:
             res = SymReal(p)
@@ -760,6 +947,9 @@ def s_abs(x):
 
 
 def s_isnan(x):
+    if isinstance(x, SymReal) and _forkmode(x):
+        v = _norm(x)
+        return (not isinstance(v, SymReal)) and v != v
     if isinstance(x, SymReal):
         return mk_bool(x.is_nan())
     if is_sym(x):
@@ -768,6 +958,9 @@ def s_isnan(x):
 
 
 def s_isinf(x):
+    if isinstance(x, SymReal) and _forkmode(x):
+        v = _norm(x)
+        return (not isinstance(v, SymReal)) and v in (_INF, -_INF)
     if isinstance(x, SymReal):
         return mk_bool(z3.Or(x.is_pinf(), x.is_ninf()))
     if is_sym(x):
@@ -776,6 +969,8 @@ def s_isinf(x):
 
 
 def s_isfinite(x):
+    if isinstance(x, SymReal) and _forkmode(x):
+        return isinstance(_norm(x), SymReal)
     if isinstance(x, SymReal):
         return mk_bool(x.is_fin())
     if is_sym(x):
@@ -898,6 +1093,7 @@ class Context:
         self.defs = []         # (var, defining formula, tag, deps) : cut points and function contracts
         self.defined = []      # definedness assumptions (den != 0, log arg > 0)
         self.fn_cache = {}
+        self.facts = []
         self.log_atoms = []
         self.pow10_atoms = []
         self.pow10_inverse = {}
@@ -905,6 +1101,7 @@ class Context:
         self.div_mode = explorer.opts.get('div_mode', 'assume')
         self.log_mode = explorer.opts.get('log_mode', 'assume')
         self.log_product_rule = explorer.opts.get('log_product_rule', True)
+        self.kind_mode = explorer.opts.get('kind_mode', 'term')
         self.printing = False
         self.tokens = {}
         self.notes = []
@@ -920,6 +1117,7 @@ class Context:
             self._npre = 0
             self._npc = 0
             self._ndef = 0
+            self._nfacts = 0
         for f in self.pre[self._npre:]:
             s.add(f)
         self._npre = len(self.pre)
@@ -930,6 +1128,9 @@ class Context:
             for d in self.defs[self._ndef:]:
                 s.add(d[1])
             self._ndef = len(self.defs)
+        for f in self.facts[self._nfacts:]:
+            s.add(f)
+        self._nfacts = len(self.facts)
         t0 = time.time()
         r = s.check(extra)
         self.ex.stats.solver_time += time.time() - t0
@@ -1003,6 +1204,7 @@ class Context:
             for d in self.defs:
                 if d[2] in ('int',):
                     s.add(d[1])
+            s.add(self.facts)
             r = s.check()
             if r == z3.unsat:
                 raise Abort()
@@ -1032,6 +1234,17 @@ class Context:
         if isinstance(value, SymReal):
             if z3.is_const(value.t) and (value.k is None or z3.is_const(value.k)):
                 return value
+            key = ('cut', value.t.get_id(), None if value.k is None else value.k.get_id())
+            hit = self.fn_cache.get(key)
+            if hit is not None:          # identical term cut before: same variable (keeps relational runs aligned)
+                return hit[1]
+            r = self._cut_real(value, tag)
+            self.fn_cache[key] = (value, r)
+            return r
+        return self._cut_other(value, tag)
+
+    def _cut_real(self, value, tag):
+        if True:
             v = z3.FreshReal(tag)
             self.add_def(v, value.t, 'cut')
             if value.k is None:
@@ -1041,6 +1254,8 @@ class Context:
             kv = z3.FreshInt(tag + '#k')
             self.add_def(kv, value.k, 'cut')
             return SymReal(v, kv)
+
+    def _cut_other(self, value, tag):
         if isinstance(value, SymInt):
             if z3.is_const(value.t):
                 return value
@@ -1063,25 +1278,14 @@ class Context:
 
     # -- instantiated facts about the uninterpreted transcendental atoms
     def transcendental_facts(self):
-        facts = []
-        # monotonicity / injectivity of log between atoms of the same base (pairwise, small)
-        if self.ex.opts.get('log_monotone', False):
-            for (b1, t1, v1), (b2, t2, v2) in itertools.combinations(self.log_atoms, 2):
-                if b1 == b2:
-                    facts.append(z3.Implies(z3.And(t1 > 0, t2 > 0), (t1 < t2) == (v1 < v2)))
-                    facts.append(z3.Implies(z3.And(t1 > 0, t2 > 0), (t1 == t2) == (v1 == v2)))
-        if self.ex.opts.get('pow10_monotone', False):
-            for (t1, p1), (t2, p2) in itertools.combinations(self.pow10_atoms, 2):
-                facts.append((t1 < t2) == (p1 < p2))
-                facts.append((t1 == t2) == (p1 == p2))
-        return facts
+        return list(self.facts)
 
     # -- queries
     def all_formulas(self):
         return list(self.pre) + list(self.pc) + [d[1] for d in self.defs] + \
             [d[0] for d in self.defined] + self.transcendental_facts()
 
-    def relevant(self, goal_terms):
+    def relevant(self, goal_terms, with_defs=True):
         """pre + definedness + those pc conjuncts / definitions in the goal's cone of influence."""
         cone = {}
         for g in goal_terms:
@@ -1107,7 +1311,8 @@ class Context:
         for (cnd, _w) in self.defined:
             if any(i in cone for i in term_vars(cnd)):
                 out.append(cnd)
-        out += [defvars[i][0][1] for i in sorted(used)]
+        if with_defs:
+            out += [defvars[i][0][1] for i in sorted(used)]
         out += self.transcendental_facts()
         return out
 
@@ -1128,12 +1333,17 @@ class Context:
         neg = z3.Not(goal)
         stages = []
         if use_relevance:
-            stages.append(('relevant', self.relevant([goal]) + [neg]))
+            rel = self.relevant([goal])
+            nodefs = self.relevant([goal], with_defs=False)
+            if len(nodefs) < len(rel):
+                stages.append(('nodefs', nodefs + [neg]))
+            stages.append(('relevant', rel + [neg]))
         stages.append(('full', self.all_formulas() + [neg]))
         res, model = 'unknown', None
         t_total = 0.0
         for stage, fs in stages:
-            r, m, dt = ex.solve(fs, timeout_ms, tactic)
+            r, m, dt = ex.solve(fs, min(timeout_ms, 5000) if stage == 'nodefs' else timeout_ms, tactic,
+                                fallback=(stage != 'nodefs'))
             t_total += dt
             if r == 'unsat':
                 res, model = 'unsat', None
@@ -1166,7 +1376,7 @@ class Explorer:
     def record_query(self, name, res, dt, trivial=False):
         self.query_log.append((name, res, round(dt, 4)))
 
-    def solve(self, formulas, timeout_ms, tactic=None):
+    def solve(self, formulas, timeout_ms, tactic=None, fallback=True):
         t0 = time.time()
         if tactic:
             s = z3.Tactic(tactic).solver()
@@ -1182,7 +1392,7 @@ class Explorer:
         if r == z3.sat:
             return 'sat', s.model(), dt
         # fall back: nlsat tactic
-        if tactic is None:
+        if tactic is None and fallback:
             try:
                 t1 = time.time()
                 s2 = z3.Tactic('qfnra-nlsat').solver()
